@@ -25,6 +25,9 @@ import (
 
 func init() { worlds.Register("reg", build) }
 
+var cSpareCap = simrt.RegisterCounter("probe_proprietary_payload_with_spare_capacity_encoded")
+var cOwnerWrite = simrt.RegisterCounter("fault_caller_modifies_decoded_commands_it_was_handed")
+
 var (
 	evReg    = sim.RegisterEv(200, "register")
 	evGet    = sim.RegisterEv(201, "get")
@@ -284,6 +287,17 @@ func encodeStream(h *history, id int, cs []spec.Cmd) ([]byte, bool) {
 			simrt.Report(fmt.Sprintf("r4.size:%s", cmdName(c)), fmt.Sprintf("command %v encodes to %d bytes, table says %d", c, len(b), spec.WireSize(c)))
 			return nil, false
 		}
+		// the same value encoded again (a frame is marshalled for its MIC and
+		// again for the wire) gives the same bytes: encoding does not consume
+		// or alter the value
+		if pp, ok := mc.Payload.(*lorawan.ProprietaryMACCommandPayload); ok && cap(pp.Bytes) > len(pp.Bytes) {
+			simrt.Count(cSpareCap)
+		}
+		b = append([]byte(nil), b...) // (private copy: the result may share memory with the value)
+		if b2, err2 := mc.MarshalBinary(); err2 != nil || !bytes.Equal(b, b2) {
+			simrt.Report(fmt.Sprintf("r5.lossy:%s:second-encoding", cmdName(c)), fmt.Sprintf("command %v encodes to %x, and encoded again to %x (err %v)", c, b, b2, err2))
+			return nil, false
+		}
 		if c.CID < 0x80 {
 			// bit-exactness against the format table is property C06's subject: counted, not judged
 			if want := append([]byte{c.CID}, spec.EncodeSpec(c)...); !bytes.Equal(b, want) {
@@ -330,13 +344,45 @@ func recordDecoded(up bool, pls []lorawan.Payload) []decCmd {
 	return out
 }
 
+// ownerWriteCmds: the commands a decode handed out are the caller's; one time
+// in three it answers them in place (a request turned into its answer: same
+// CID, the answer's payload), relabels them or overwrites proprietary bytes.
+// What later decodes return must not depend on it.
+func ownerWriteCmds(pls []lorawan.Payload, r *sim.Rand) {
+	if r.Intn(3) != 0 {
+		return
+	}
+	simrt.Count(cOwnerWrite)
+	for _, p := range pls {
+		mc, ok := p.(*lorawan.MACCommand)
+		if !ok {
+			continue
+		}
+		if pp, ok := mc.Payload.(*lorawan.ProprietaryMACCommandPayload); ok {
+			for i := range pp.Bytes {
+				pp.Bytes[i] ^= 0xff
+			}
+			continue
+		}
+		switch r.Intn(3) {
+		case 0:
+			mc.Payload = &lorawan.LinkCheckAnsPayload{Margin: 7, GwCnt: 1}
+		case 1:
+			mc.Payload = nil
+			mc.CID = lorawan.CID(0x7f)
+		default:
+			mc.Payload = &lorawan.DevStatusAnsPayload{Battery: 200, Margin: -3}
+		}
+	}
+}
+
 func codec(h *history, id, n int, sub uint64) {
 	r := sim.NewRand(sub)
 	for i := 0; i < n; i++ {
 		if simrt.Dead() {
 			return
 		}
-		simrt.Progress()
+		sim.Op()
 		up := r.Intn(2) == 0
 		switch k := r.Intn(10); {
 		case k < 3:
@@ -393,6 +439,7 @@ func decodeFOpts(h *history, id int, r *sim.Rand, up bool) {
 	op.err = err != nil
 	if err == nil {
 		op.cmds = recordDecoded(up, phy.MACPayload.(*lorawan.MACPayload).FHDR.FOpts)
+		ownerWriteCmds(phy.MACPayload.(*lorawan.MACPayload).FHDR.FOpts, r)
 	}
 	h.decs[id] = append(h.decs[id], op)
 	simrt.Count(cDecodes)
@@ -437,6 +484,7 @@ func decodeFRM(h *history, id int, r *sim.Rand, up bool) {
 	op.err = err != nil
 	if err == nil {
 		op.cmds = recordDecoded(up, phy.MACPayload.(*lorawan.MACPayload).FRMPayload)
+		ownerWriteCmds(phy.MACPayload.(*lorawan.MACPayload).FRMPayload, r)
 	}
 	h.decs[id] = append(h.decs[id], op)
 	simrt.Count(cDecodes)
@@ -1056,6 +1104,12 @@ func checkDecode(h *history, d decOp) bool {
 			}
 			if !bytes.Equal(c.raw, pl) {
 				simrt.Report(sig, fmt.Sprintf("stream %x (up=%v): proprietary command %d payload %x, stream has %x", d.stream, d.up, k, c.raw, pl))
+				return inflight
+			}
+			// "decodes into exactly that sequence": the bytes the command was
+			// generated with, while the stream is framed the way it was generated
+			if aligned && k < len(d.truth) && d.truth[k].CID == c.cid && len(d.truth[k].Raw) == n && !bytes.Equal(c.raw, d.truth[k].Raw) {
+				simrt.Report("r2.value:Proprietary", fmt.Sprintf("stream %x (up=%v): proprietary command %d (CID 0x%02x) was encoded from %x and decodes to %x", d.stream, d.up, k, c.cid, d.truth[k].Raw, c.raw))
 				return inflight
 			}
 		} else if c.hasPl {
